@@ -61,5 +61,17 @@ TRebuild ==
   /\ IsEvent("rebuild")
   /\ Rebuild(Ev.n, Ev.x, IF "order" \in DOMAIN Ev THEN Ev.order ELSE ord) /\ Obs /\ Step
 
-TNext == TRebuild \/ TAssign \/ TSetAuto \/ TUpdateAll \/ TUpdateTargets \/ TSave \/ TRestore
+\* Model.set_seed (a node that depends on several seeds is evaluated once per assignment: the count is not compared)
+TSetSeed ==
+  /\ IsEvent("set_seed")
+  /\ SetSeed([i \in 1..Len(Ev.assigned) |-> <<Ev.assigned[i][1], Ev.assigned[i][2]>>])
+  /\ Chk("operation_raises_iff_a_swept_node_function_raises", Ev.raised = raised')
+  /\ Chk("values_equal_spec", \A i \in ObsNode : Ev.val[i] = Eff(val')[i])
+  /\ Chk("outdated_flags_equal_spec", \A i \in ObsNode : Ev.outd[i] = Outd(flag')[i])
+  /\ Chk("coherent_up_to_date_nodes_hold_from_scratch_values",
+         \A i \in ObsNode : ~Ev.outd[i] => Ev.val[i] = Fresh(val')[i])
+  /\ Chk("evaluated_exactly_the_outdated_ones_once", SeqToSet(Ev.evald) = evald' \cap ObsNode)
+  /\ Step
+
+TNext == TSetSeed \/ TRebuild \/ TAssign \/ TSetAuto \/ TUpdateAll \/ TUpdateTargets \/ TSave \/ TRestore
 =============================================================================
